@@ -511,6 +511,27 @@ Proof.
   split; [exact Ea|]. split; [exact R|split; assumption].
 Qed.
 
+(* ... and with it the invariant of C11_history_invariant: appending names not yet archived to a FILE whose decoded
+   entries have distinct names gives a FILE whose decoded entries have distinct names *)
+Theorem append_container_history pw rb srb b es s a kd kt walk a' jobs new :
+  raw_entries rds b = Ok (es, FinOk, s) -> r_buf s = [] -> logical pw rb srb b = Ok a ->
+  Update.step a (Update.OAppend kd kt walk) = Ok a' -> carries_nodes kd kt walk new ->
+  Forall2 carries jobs new -> Forall (wf_job pw) jobs -> Forall (fun e => e_kind e <= 3) new ->
+  (forall j, In j jobs -> reads_to_end rb j) ->
+  NoDup (Update.names a) -> UpdateFacts.hist_ok a [Update.OAppend kd kt walk] ->
+  exists b' s', append_at b (new_raws jobs) = Ok (b', r_next s) /\
+    logical pw rb srb b' = Ok (Update.final a [Update.OAppend kd kt walk]) /\
+    NoDup (Update.names (Update.final a [Update.OAppend kd kt walk])) /\
+    raw_entries rds b' = Ok (es ++ new_raws jobs, FinOk, s') /\ r_buf s' = [] /\ r_next s' = r_next s.
+Proof.
+  intros H Hb Ha St Cn Hc Hw Hk Hr ND HO.
+  destruct (append_container_step pw rb srb b es s a kd kt walk a' jobs new H Hb Ha St Cn Hc Hw Hk Hr)
+    as (b' & s' & AP & L & Ea & _ & R & B' & N').
+  exists b', s'. split; [exact AP|]. cbn [Update.final fold_left]. rewrite <- Ea.
+  split; [exact L|]. split; [|split; [exact R|split; assumption]].
+  rewrite Ea. apply UpdateFacts.step_nodup; [exact ND|apply HO].
+Qed.
+
 End Logical.
 
 (* ================================================================================================= *)
@@ -729,6 +750,151 @@ Proof.
   split; [rewrite stream_slice_agree_parts; exact (read_parts_b_fst _ _ RD)|exact RD].
 Qed.
 
+(* ---- chains the split writer lays out (PartsFacts.chain: header k, entry chunks, ANXT + AEND except in the last
+   part; cuts between chunks, entries may straddle parts) ------------------------------------------------------- *)
+Lemma clean_no_anxt b : clean b -> has_anxt b = false.
+Proof.
+  induction 1 as [|c b [Hc _] _ IH]; [reflexivity|]. cbn [has_anxt existsb]. rewrite Hc. exact IH.
+Qed.
+
+Lemma body_run_last b : body_ok b -> run_ok b (mk AEND []).
+Proof.
+  intros [Hw Hc]. split; [exact Hw|]. split; [eapply Forall_impl; [|exact Hc]; intros c H; apply H|].
+  split; [exact wf_chunk_aend|reflexivity].
+Qed.
+
+Lemma body_run_nl b : body_ok b -> run_ok (b ++ [mk ANXT []]) (mk AEND []) /\ has_anxt (b ++ [mk ANXT []]) = true.
+Proof.
+  intros [Hw Hc]. destruct marker_flags as (_ & _ & _ & _ & E2 & W). split.
+  - split; [apply Forall_app; split; [exact Hw|constructor; [exact W|constructor]]|].
+    split; [|split; [exact wf_chunk_aend|reflexivity]].
+    apply Forall_app. split; [eapply Forall_impl; [|exact Hc]; intros c H; apply H|constructor; [reflexivity|constructor]].
+  - rewrite has_anxt_app. cbn [has_anxt existsb]. rewrite E2, orb_true_r. reflexivity.
+Qed.
+
+Lemma hdr_ok_written num : num < 2 ^ 32 -> hdr_ok (hdr_chunk num) (mk_hdr num).
+Proof.
+  intros Hn. split; [apply wf_chunk_hdr|]. split; [reflexivity|].
+  unfold hdr_chunk. cbn [mk cdata]. apply ahed_inv. unfold wf_ahed; cbn; repeat split; lia || exact Hn.
+Qed.
+
+Lemma part_bytes_file num b last :
+  part_bytes num b last = sig ++ ser_chunk (hdr_chunk num) ++ ser_chunks (b ++ markers last).
+Proof. unfold part_bytes. rewrite write_header_eq, <- app_assoc. reflexivity. Qed.
+
+(* the walk over a written chain: the last body is extended, byte for byte the chain the writer lays out for it *)
+Lemma walk_chain news : forall pre b n0, Forall body_ok (pre ++ [b]) -> n0 + len pre < 2 ^ 32 ->
+  forall b0 bodies, b0 :: bodies = pre ++ [b] ->
+  append_walk (mk_hdr n0) (part_bytes n0 b0 (is_nil bodies)) (ser_chunks (b0 ++ markers (is_nil bodies)))
+              (chain (n0 + 1) bodies) news
+  = Ok (chain n0 (pre ++ [b ++ concat news])).
+Proof.
+  induction pre as [|p pre IH]; intros b n0 Hb Hn b0 bodies E; cbn [app] in E; injection E as -> ->.
+  - (* the last part *)
+    inversion Hb as [|? ? Hb0 _]; subst. cbn [app chain is_nil markers append_walk].
+    pose proof (body_run_last b Hb0) as R. rewrite ser_chunks_snoc.
+    rewrite <- (app_nil_r (ser_chunk (mk AEND []))) at 1 2. rewrite (seek_run b (mk AEND []) [] R).
+    rewrite (clean_no_anxt b (proj2 Hb0)). cbn [bind]. f_equal. f_equal.
+    change (len []) with 0 in Hn. rewrite N.add_0_r in Hn.
+    destruct (overwrite_file (hdr_chunk n0) (mk_hdr n0) b (mk AEND []) [] news (hdr_ok_written n0 Hn) R) as (OW & _ & _ & LE).
+    cbv zeta in OW, LE. unfold file_of in OW at 1, LE. rewrite app_nil_r in OW, LE.
+    rewrite part_bytes_file. cbn [markers]. rewrite ser_chunks_snoc. rewrite OW.
+    rewrite skipn_all2.
+    + unfold file_of. rewrite part_bytes_file. cbn [markers]. rewrite ser_chunks_snoc, app_nil_r. reflexivity.
+    + unfold file_of. rewrite app_assoc, app_length, (hdr_len _ _ (hdr_ok_written n0 Hn)), !app_length.
+      change (ser_chunk (mk AEND [])) with finalize. rewrite finalize_len, len_nat. cbn [length]. lia.
+  - (* a part that announces its successor *)
+    inversion Hb as [|? ? Hb0 Hb']; subst. rewrite len_cons in Hn.
+    destruct (pre ++ [b]) as [|b1 rest] eqn:E1; [destruct pre; discriminate E1|].
+    cbn [is_nil markers chain append_walk].
+    destruct (body_run_nl p Hb0) as (R & HX).
+    replace (ser_chunks (p ++ [mk ANXT []; mk AEND []])) with (ser_chunks (p ++ [mk ANXT []]) ++ ser_chunk (mk AEND []) ++ [])
+      by (rewrite app_nil_r, <- ser_chunks_snoc, <- app_assoc; reflexivity).
+    rewrite (seek_run _ _ [] R), HX. cbn [bind].
+    rewrite part_bytes_file at 1. rewrite (read_header_hdr _ (mk_hdr (n0 + 1))) by (apply hdr_ok_written; lia).
+    cbn [bind mk_hdr a_number]. destruct (N.ltb_spec (n0 + 1) (2 ^ 32)); [|lia]. rewrite N.eqb_refl. cbn [andb].
+    rewrite (IH b (n0 + 1) ltac:(rewrite E1; exact Hb') ltac:(lia) b1 rest (eq_sym E1)). cbn [bind].
+    cbn [app chain]. destruct (pre ++ [b ++ concat news]) as [|b2 rest2] eqn:E2; [destruct pre; discriminate E2|].
+    cbn [is_nil]. reflexivity.
+Qed.
+
+(* `append_written_chain`: for every chain of the split writer the walk ends in the last part and the result is the
+   chain of the same bodies with the new entries' chunks behind the last one; it reads back as old ++ new *)
+Theorem append_written_chain es pre b n0 news : Forall wf_entry es -> concat (pre ++ [b]) = concat es ->
+  n0 + len pre < 2 ^ 32 -> Forall wf_entry news ->
+  read_parts rds (chain n0 (pre ++ [b])) = Ok (es, FinOk) /\
+  append_parts (chain n0 (pre ++ [b])) news = Ok (chain n0 (pre ++ [b ++ concat news])) /\
+  read_parts rds (chain n0 (pre ++ [b ++ concat news])) = Ok (es ++ news, FinOk) /\
+  read_parts read_chunk_slice (chain n0 (pre ++ [b ++ concat news])) = Ok (es ++ news, FinOk).
+Proof.
+  intros Hw E Hn Hnews. pose proof (body_ok_of_entries es (pre ++ [b]) Hw E) as Hb.
+  assert (E' : concat (pre ++ [b ++ concat news]) = concat (es ++ news)).
+  { rewrite !concat_app in *. cbn [concat] in *. rewrite !app_nil_r in *. rewrite app_assoc, E. reflexivity. }
+  assert (Hw' : Forall wf_entry (es ++ news)) by (apply Forall_app; split; assumption).
+  assert (R' := chain_read_entries (es ++ news) pre (b ++ concat news) n0 Hw' E' Hn).
+  split; [apply chain_read_entries; assumption|]. split; [|split; [exact R'|rewrite stream_slice_agree_parts; exact R']].
+  destruct (pre ++ [b]) as [|b0 bodies] eqn:E0; [destruct pre; discriminate E0|].
+  cbn [chain append_parts]. rewrite part_bytes_file at 1.
+  assert (N0 : n0 < 2 ^ 32) by lia.
+  rewrite (read_header_hdr _ (mk_hdr n0)) by (apply hdr_ok_written; exact N0). cbn [bind].
+  rewrite <- E0 in Hb. exact (walk_chain news pre b n0 Hb Hn b0 bodies (eq_sym E0)).
+Qed.
+
+(* ---- the logical view of a part chain --------------------------------------------------------------------------- *)
+Section LogicalParts.
+Variables E D : encryption -> bytes -> bytes -> bytes.
+Variable compress : compression -> N -> list bytes -> list bytes.
+Variable decompress : compression -> bytes -> res bytes.
+Variable verify : bytes -> bytes -> res bytes.
+Hypothesis D_len : forall a k c, len16 c -> len16 (D a k c).
+Hypothesis DE : forall a k b, len16 b -> D a k (E a k b) = b.
+Hypothesis E_len : forall a k b, len16 b -> len16 (E a k b).
+Hypothesis compress_law : forall c lvl ws, decompress c (concat (compress c lvl ws)) = Ok (concat ws).
+Hypothesis compress_det : forall c lvl (ws ws' : list bytes), concat ws = concat ws' ->
+  concat (compress c lvl ws) = concat (compress c lvl ws').
+
+(* entries() chained over the parts (read_next_archive), run to the end marker of the last part *)
+Definition read_archive_parts (parts : list bytes) : res (list read_entry) :=
+  do (raws, f) <- read_parts rds parts;
+  match f with
+  | FinOk => let (ps, pe) := parse_all raws in match pe with FinOk => Ok ps | FinErr k => Err k | FinPanic => Panic end
+  | FinErr k => Err k
+  | FinPanic => Panic
+  end.
+Definition xlogical_parts (pw : bytes) (rb : normal_entry -> list N) (srb : solid_entry -> list N) (parts : list bytes)
+  : res (list xentry) :=
+  do rs <- read_archive_parts parts; x_items E D decompress verify pw rb srb rs.
+Definition logical_parts (pw : bytes) (rb : normal_entry -> list N) (srb : solid_entry -> list N) (parts : list bytes)
+  : res Update.archive :=
+  do xs <- xlogical_parts pw rb srb parts; Ok (map abs xs).
+
+Theorem append_multipart_logical pw rb srb parts es old jobs new :
+  read_parts_b parts = Ok (es, FinOk, []) -> xlogical_parts pw rb srb parts = Ok old ->
+  Forall2 carries jobs new -> Forall (wf_job E compress verify pw) jobs -> Forall (fun e => e_kind e <= 3) new ->
+  (forall j, In j jobs -> reads_to_end E compress rb j) ->
+  exists out, append_parts parts (new_raws E compress jobs) = Ok out /\
+    one_part_rewritten (new_raws E compress jobs) parts out /\
+    xlogical_parts pw rb srb out = Ok (old ++ new) /\
+    logical_parts pw rb srb out = Ok (Update.append (map abs old) (map abs new)) /\
+    read_parts_b out = Ok (es ++ new_raws E compress jobs, FinOk, []).
+Proof.
+  intros H XL Hc Hw Hk Hr.
+  pose proof (new_raws_wf E compress decompress verify compress_law compress_det pw jobs Hw) as Wn.
+  pose proof (new_raws_parse E D compress verify D_len DE E_len pw jobs Hw) as Pn.
+  destruct (append_multipart parts es _ H Wn) as (out & AP & OPR & R0 & R1 & _ & RB).
+  exists out. split; [exact AP|]. split; [exact OPR|].
+  unfold xlogical_parts, read_archive_parts in XL. rewrite R0 in XL. cbn [bind] in XL.
+  destruct (parse_all es) as [xs pe] eqn:P0. destruct pe; cbn [bind] in XL; try discriminate XL.
+  assert (X : xlogical_parts pw rb srb out = Ok (old ++ new)).
+  { unfold xlogical_parts, read_archive_parts. rewrite R1. cbn [bind].
+    rewrite (parse_all_app es _ xs P0), Pn. cbn [fst snd bind].
+    apply x_items_app; [exact XL|]. apply x_items_normals.
+    apply (read_all_built E D compress decompress verify D_len DE E_len compress_law); assumption. }
+  split; [exact X|]. split; [|exact RB].
+  unfold logical_parts. rewrite X. cbn [bind]. unfold Update.append. rewrite map_app. reflexivity.
+Qed.
+End LogicalParts.
+
 (* ================================================================================================= *)
 (* 7. the premises are met: concrete files                                                             *)
 (* ================================================================================================= *)
@@ -797,4 +963,232 @@ Proof.
   eexists _, _. split; [vm_compute; reflexivity|]. split; [reflexivity|]. split; [vm_compute; reflexivity|].
   split; [exact P1|]. split; [exact P2|]. split; [repeat (apply Forall_cons; [vm_compute; discriminate|]); apply Forall_nil|]. split; [exact P3|]. split; [exact P4|].
   intros c lvl ws ws' H. exact H.
+Qed.
+
+(* ================================================================================================= *)
+(* 8. delete on the bytes of an archive without solid blocks (bridge to Update.delete)                 *)
+(* ================================================================================================= *)
+(* `pna delete` = run_transform_entry with the delete transformer: WfTransformFacts.run_edit ... CDelete (read every
+   entry with entries(), drop the selected ones, write the others with add_entry into a new archive).  Stated for
+   archives the strict recogniser accepts (Wf.wf_archive: everything the writers of this crate produce — the writer
+   must be able to re-serialise what it read) whose items are all normal entries (no solid block; with --unsolid
+   / --keep-solid the inner entries go through `expand` / `rebuild`, which are parameters there). *)
+From PNA Require Wf WfFacts WfWriterFacts WfAgreeFacts WfRewriteFacts RecutFacts WfTransformFacts Transform.
+
+(* an archive written with add_entry of chunk lists that each end in FEND / SEND leaves no entry open *)
+Definition closed_raw (r : list chunk) : Prop := exists body last, r = body ++ [last] /\ is_end last = true.
+
+Lemma scan_closed : forall raws buf, Forall closed_raw raws -> snd (scan buf (concat raws)) = left_open buf raws.
+Proof.
+  induction raws as [|r raws IH]; intros buf H; [reflexivity|]. inversion H as [|? ? (body & last & -> & He) H']; subst.
+  cbn [concat left_open]. rewrite scan_app. cbn [snd]. rewrite scan_app. cbn [snd].
+  rewrite scan_end by exact He. cbn [snd scan]. rewrite IH by exact H'. destruct raws; reflexivity.
+Qed.
+
+Lemma written_closed num raws : num < 2 ^ 32 -> Forall wf_chunk (concat raws) ->
+  Forall (fun c => ty_is c AEND = false) (concat raws) -> Forall closed_raw raws ->
+  exists es s, raw_entries rds (write_raw_archive num raws) = Ok (es, FinOk, s) /\ r_buf s = [] /\
+               r_next s = has_anxt (concat raws).
+Proof.
+  intros Hn Hw Ha Hc.
+  assert (R : run_ok (concat raws) (mk AEND [])) by (split; [exact Hw|split; [exact Ha|split; [exact wf_chunk_aend|reflexivity]]]).
+  pose proof (file_read (hdr_chunk num) (mk_hdr num) (concat raws) (mk AEND []) [] (hdr_ok_written num Hn) R) as F.
+  unfold file_of in F. rewrite app_nil_r in F.
+  replace (sig ++ ser_chunk (hdr_chunk num) ++ ser_chunks (concat raws) ++ ser_chunk (mk AEND []))
+    with (write_raw_archive num raws) in F
+    by (rewrite write_raw_archive_eq, write_header_eq, ser_entries_concat, <- !app_assoc; reflexivity).
+  eexists _, _. split; [exact F|]. cbn [st r_buf r_next]. split; [|reflexivity].
+  (* ANXT chunks are dropped: the remaining chunks still end every raw entry *)
+  assert (G : forall raws buf, Forall closed_raw raws -> snd (scan buf (strip (concat raws))) = left_open buf raws).
+  { clear. induction raws as [|r raws IH]; intros buf H; [reflexivity|]. inversion H as [|? ? (body & last & -> & He) H']; subst.
+    cbn [concat left_open]. rewrite !strip_app. cbn [strip filter].
+    replace (ty_is last ANXT) with false.
+    - cbn [negb]. fold (strip (concat raws)). rewrite scan_app. cbn [snd]. rewrite scan_app. cbn [snd].
+      rewrite scan_end by exact He. cbn [snd scan]. rewrite IH by exact H'. destruct raws; reflexivity.
+    - symmetry. unfold is_end in He. apply orb_true_iff in He.
+      destruct He as [He|He]; [apply (ty_eq_neq last FEND ANXT He)|apply (ty_eq_neq last SEND ANXT He)]; reflexivity. }
+  rewrite G by exact Hc. apply left_open_nil.
+Qed.
+
+Lemma no_anxt_has l : Forall (fun c => ty_is c ANXT = false) l -> has_anxt l = false.
+Proof. induction 1 as [|c l Hc _ IH]; [reflexivity|]. cbn [has_anxt existsb]. rewrite Hc. exact IH. Qed.
+
+Lemma ser_normal_closed n : closed_raw (ser_normal n).
+Proof. unfold ser_normal. cbv zeta. eexists _, (mk FEND []). split; [rewrite !app_assoc; reflexivity|reflexivity]. Qed.
+
+Section Delete.
+Variables E D : encryption -> bytes -> bytes -> bytes.
+Variable decompress : compression -> bytes -> res bytes.
+Variable verify : bytes -> bytes -> res bytes.
+Variables hdr_tok content_tok : normal_entry -> bytes.
+Variable expand : solid_entry -> res (list normal_entry).
+Variable rebuild : solid_entry -> list normal_entry -> solid_entry.
+
+Notation run_edit := (WfTransformFacts.run_edit hdr_tok content_tok expand rebuild).
+Notation edit_archive := (WfTransformFacts.edit_archive hdr_tok content_tok expand rebuild).
+Notation lview := (WfTransformFacts.lview hdr_tok content_tok).
+Notation read_entries_x := (read_entries_x E D decompress verify).
+Notation read_entry_x := (read_entry_x E D decompress verify).
+
+Definition kept (sel : bytes -> bool) (n : normal_entry) : bool := negb (sel (f_name (n_hdr n))).
+
+Lemma reentry_lview e : WfTransformFacts.reentry e (lview e) = e.
+Proof. destruct e as [h p x d m xs]. destruct m. reflexivity. Qed.
+
+Lemma edit_delete_normals keep pw sel : forall ns,
+  edit_archive keep pw Transform.CDelete sel (map RNormal ns) = Ok (map RNormal (filter (kept sel) ns)).
+Proof.
+  induction ns as [|n ns IH]; [reflexivity|].
+  cbn [map WfTransformFacts.edit_archive WfTransformFacts.edit_item]. rewrite IH.
+  unfold WfTransformFacts.edit_entry, Transform.cmd_transformer. cbn [Transform.selects_all orb filter].
+  change (Transform.le_name (lview n)) with (f_name (n_hdr n)). unfold kept.
+  destruct (sel (f_name (n_hdr n))); cbn [Transform.cmd_entry bind option_map negb app map]; [reflexivity|].
+  rewrite reentry_lview. reflexivity.
+Qed.
+
+(* entry level: the archive delete writes holds exactly the entries not selected, in order *)
+Theorem delete_container_entries keep pw nf sel b ns :
+  Wf.wf_archive b = true -> read_archive b = Ok (map RNormal ns) ->
+  let b' := write_raw_archive 0 (map ser_normal (filter (kept sel) ns)) in
+  run_edit keep pw Transform.CDelete nf sel b = Ok b' /\ Wf.wf_archive b' = true /\
+  read_archive b' = Ok (map RNormal (map normalize (filter (kept sel) ns))) /\
+  exists es' s', raw_entries rds b' = Ok (es', FinOk, s') /\ r_buf s' = [] /\ r_next s' = false.
+Proof.
+  intros WA RA. cbv zeta.
+  destruct (WfAgreeFacts.wf_archive_read b WA) as (es & SD & En & _).
+  assert (Ees : es = map RNormal ns).
+  { unfold read_archive in RA. rewrite En in RA. cbn [bind] in RA. injection RA as ->. reflexivity. }
+  subst es. pose proof (proj2 WfRewriteFacts.writable_exact _ _ SD) as W.
+  assert (W' : Forall WfWriterFacts.writable (map RNormal (filter (kept sel) ns))).
+  { apply Forall_forall. intros x Hx. apply in_map_iff in Hx. destruct Hx as (n & <- & Hn). apply filter_In in Hn.
+    rewrite Forall_forall in W. apply W. apply in_map. apply Hn. }
+  assert (EM : forall l, map ser_entry (map RNormal l) = map ser_normal l) by (intros l; rewrite map_map; reflexivity).
+  destruct (WfWriterFacts.writer_wf _ W') as (WA' & SD'). rewrite EM in WA', SD'.
+  split; [|split; [exact WA'|split]].
+  - unfold WfTransformFacts.run_edit. cbn [Transform.needs_files andb].
+    change (WfTransformFacts.read_all b) with (read_archive b). rewrite RA. cbn [bind].
+    rewrite edit_delete_normals. cbn [bind]. rewrite EM. reflexivity.
+  - apply WfAgreeFacts.strict_agrees in SD'. unfold read_archive. rewrite SD'. cbn [bind].
+    rewrite !map_map. reflexivity.
+  - pose proof (WfWriterFacts.written_body_chunks _ W') as BC. rewrite EM in BC.
+    destruct (written_closed 0 (map ser_normal (filter (kept sel) ns))) as (es' & s' & R & B & N'); [reflexivity| | | |].
+    + eapply Forall_impl; [|exact BC]. intros c Hc. apply Hc.
+    + eapply Forall_impl; [|exact BC]. intros c Hc. apply Hc.
+    + apply Forall_forall. intros r Hr. apply in_map_iff in Hr. destruct Hr as (n & <- & _). apply ser_normal_closed.
+    + exists es', s'. split; [exact R|]. split; [exact B|]. rewrite N'.
+      apply no_anxt_has. eapply Forall_impl; [|exact BC]. intros c Hc. apply Hc.
+Qed.
+
+Lemma concat_filter_nonempty (l : list bytes) : concat (filter nonempty l) = concat l.
+Proof. induction l as [|d l IH]; [reflexivity|]. destruct d; cbn [filter nonempty concat app]; [exact IH|]. rewrite IH. reflexivity. Qed.
+
+(* re-serialising drops empty data chunks only: the entry decodes alike *)
+Lemma read_entry_x_normalize pw rb n : RecutFacts.drains (n_data n) (rb n) -> RecutFacts.drains (n_data n) (rb (normalize n)) ->
+  read_entry_x pw rb (normalize n) = read_entry_x pw rb n.
+Proof.
+  intros D1 D2. unfold CreateTransportFacts.read_entry_x.
+  rewrite (RecutFacts.normal_same_decode E D decompress verify (normalize n) n pw (rb (normalize n)) (rb n)).
+  - reflexivity.
+  - unfold RecutFacts.normal_same, normalize. cbn [n_hdr n_phsf n_extra n_data n_meta n_xattrs].
+    rewrite concat_filter_nonempty. repeat split.
+  - unfold normalize. cbn [n_data]. apply (RecutFacts.drains_concat (n_data n)); [symmetry; apply concat_filter_nonempty|exact D2].
+  - exact D1.
+Qed.
+
+Definition drained (rb : normal_entry -> list N) (n : normal_entry) : Prop :=
+  RecutFacts.drains (n_data n) (rb n) /\ RecutFacts.drains (n_data n) (rb (normalize n)).
+
+Lemma read_x_name pw rb n x : read_entry_x pw rb n = Ok x -> e_name x = f_name (n_hdr n).
+Proof.
+  unfold CreateTransportFacts.read_entry_x. destruct (decode_normal E D decompress verify n pw (rb n)); cbn [bind]; try discriminate.
+  intros [= <-]. reflexivity.
+Qed.
+
+Lemma read_entries_x_delete pw rb sel : forall ns old, Forall (drained rb) ns -> read_entries_x pw rb ns = Ok old ->
+  read_entries_x pw rb (map normalize (filter (kept sel) ns)) = Ok (filter (fun x => negb (sel (e_name x))) old).
+Proof.
+  induction ns as [|n ns IH]; intros old Hd H; cbn [CreateTransportFacts.read_entries_x filter map] in *.
+  - injection H as <-. reflexivity.
+  - inversion Hd as [|? ? [D1 D2] Hd']; subst.
+    destruct (read_entry_x pw rb n) as [x| |] eqn:Ex; cbn [bind] in H; try discriminate H.
+    destruct (read_entries_x pw rb ns) as [xs| |] eqn:Exs; cbn [bind] in H; try discriminate H. injection H as <-.
+    cbn [filter]. rewrite (read_x_name _ _ _ _ Ex). unfold kept at 1.
+    destruct (sel (f_name (n_hdr n))); cbn [negb map CreateTransportFacts.read_entries_x]; [exact (IH xs Hd' eq_refl)|].
+    rewrite (read_entry_x_normalize pw rb n D1 D2), Ex. cbn [bind]. rewrite (IH xs Hd' eq_refl). reflexivity.
+Qed.
+
+(* `delete_container`: decoded with the password and draining buffers, the archive delete writes holds exactly the
+   logical entries whose name is not selected, unchanged and in order *)
+Theorem delete_container_logical keep pw' nf sel pw rb srb b ns old :
+  Wf.wf_archive b = true -> read_archive b = Ok (map RNormal ns) -> Forall (drained rb) ns ->
+  xlogical E D decompress verify pw rb srb b = Ok old ->
+  exists b', run_edit keep pw' Transform.CDelete nf sel b = Ok b' /\ Wf.wf_archive b' = true /\
+    xlogical E D decompress verify pw rb srb b' = Ok (filter (fun x => negb (sel (e_name x))) old) /\
+    exists es' s', raw_entries rds b' = Ok (es', FinOk, s') /\ r_buf s' = [] /\ r_next s' = false.
+Proof.
+  intros WA RA Hd XL. destruct (delete_container_entries keep pw' nf sel b ns WA RA) as (RE & WA' & RA' & RW). cbv zeta in *.
+  eexists. split; [exact RE|]. split; [exact WA'|]. split; [|exact RW]. unfold xlogical in *. rewrite RA' . rewrite RA in XL. cbn [bind] in *.
+  apply x_items_normals.
+  assert (XN : forall l o, x_items E D decompress verify pw rb srb (map RNormal l) = Ok o -> read_entries_x pw rb l = Ok o).
+  { induction l as [|n l IHl]; intros o; cbn [map x_items x_item CreateTransportFacts.read_entries_x]; [auto|].
+    destruct (read_entry_x pw rb n) as [x| |]; cbn [bind]; try discriminate.
+    destruct (x_items E D decompress verify pw rb srb (map RNormal l)) as [y| |] eqn:Ey; cbn [bind]; try discriminate.
+    intros [= <-]. rewrite (IHl y eq_refl). reflexivity. }
+  apply read_entries_x_delete; [exact Hd|]. apply XN. exact XL.
+Qed.
+
+Lemma abs_delete sel old :
+  map abs (filter (fun x => negb (sel (e_name x))) old) = Update.delete_by sel (map abs old).
+Proof.
+  unfold Update.delete_by. induction old as [|x old IH]; [reflexivity|]. cbn [filter map].
+  change (Update.e_path (abs x)) with (e_name x). destruct (sel (e_name x)); cbn [negb map]; rewrite IH; reflexivity.
+Qed.
+
+(* the bridge: abs (file after delete) = Update.delete matched (abs file) *)
+Theorem delete_container_abs keep pw' nf matched pw rb srb b ns a :
+  Wf.wf_archive b = true -> read_archive b = Ok (map RNormal ns) -> Forall (drained rb) ns ->
+  logical E D decompress verify pw rb srb b = Ok a ->
+  exists b', run_edit keep pw' Transform.CDelete nf (fun p => Update.mem p matched) b = Ok b' /\ Wf.wf_archive b' = true /\
+    logical E D decompress verify pw rb srb b' = Ok (Update.delete matched a) /\
+    Update.step a (Update.ODelete matched) = Ok (Update.delete matched a) /\
+    exists es' s', raw_entries rds b' = Ok (es', FinOk, s') /\ r_buf s' = [] /\ r_next s' = false.
+Proof.
+  intros WA RA Hd L. unfold logical in L.
+  destruct (xlogical E D decompress verify pw rb srb b) as [old| |] eqn:XL; cbn [bind] in L; try discriminate L. injection L as <-.
+  destruct (delete_container_logical keep pw' nf (fun p => Update.mem p matched) pw rb srb b ns old WA RA Hd XL) as (b' & RE & WA' & XL' & RW).
+  exists b'. split; [exact RE|]. split; [exact WA'|]. split; [|split; [reflexivity|exact RW]].
+  unfold logical. rewrite XL'. cbn [bind]. rewrite (abs_delete (fun p => Update.mem p matched)). reflexivity.
+Qed.
+End Delete.
+
+(* ---- premises of the solid and the delete statements ------------------------------------------------------------ *)
+Definition tx_rb2 (_ : normal_entry) : list N := repeat 16 100.
+Definition tx_srb (_ : solid_entry) : list N := repeat 64 2000.
+(* the same three entries once inside a stored solid block (they are AES-encrypted inside it) and once as normal entries *)
+Definition tx_solid : solid_entry :=
+  build_solid real_E_of tx_compress store_cfg tx_ctx [] (solid_writes (map (build_job real_E_of tx_compress) tx_jobs)).
+Definition tx_solid_arch : bytes :=
+  write_archive_entries (RSolid tx_solid :: map RNormal (map (build_job real_E_of tx_compress) tx_jobs)).
+
+Example append_logical_solid_premises :
+  exists es s, raw_entries rds tx_solid_arch = Ok (es, FinOk, s) /\ r_buf s = [] /\ length es = 4%nat /\
+    xlogical real_E_of real_D_of tx_decompress tx_verify tx_pw tx_rb tx_srb tx_solid_arch
+      = Ok (create_from_tree tx_c tx_order tx_tree ++ create_from_tree tx_c tx_order tx_tree).
+Proof. eexists _, _. split; [vm_compute; reflexivity|]. split; [reflexivity|]. split; [reflexivity|vm_compute; reflexivity]. Qed.
+
+Example delete_premises :
+  Wf.wf_archive tx_arch = true /\ read_archive tx_arch = Ok (map RNormal (map (build_job real_E_of tx_compress) tx_jobs)) /\
+  Forall (drained tx_rb2) (map (build_job real_E_of tx_compress) tx_jobs) /\
+  xlogical real_E_of real_D_of tx_decompress tx_verify tx_pw tx_rb2 tx_srb tx_arch = Ok (create_from_tree tx_c tx_order tx_tree) /\
+  exists b', WfTransformFacts.run_edit (fun _ => []) (fun _ => []) (fun _ => Ok []) (fun s _ => s) false false Transform.CDelete 1
+               (fun p => Update.mem p [lit "d/a.txt"]) tx_arch = Ok b' /\
+    xlogical real_E_of real_D_of tx_decompress tx_verify tx_pw tx_rb2 tx_srb b'
+      = Ok (filter (fun x => negb (Update.mem (e_name x) [lit "d/a.txt"])) (create_from_tree tx_c tx_order tx_tree)) /\
+    length (filter (fun x => negb (Update.mem (e_name x) [lit "d/a.txt"])) (create_from_tree tx_c tx_order tx_tree)) = 2%nat.
+Proof.
+  split; [vm_compute; reflexivity|]. split; [vm_compute; reflexivity|]. split.
+  { set (l := map _ tx_jobs). vm_compute in l. subst l.
+    repeat (apply Forall_cons; [split; (split; [unfold tx_rb2; cbn [repeat]; repeat constructor|vm_compute; reflexivity])|]).
+    apply Forall_nil. }
+  split; [vm_compute; reflexivity|]. eexists. split; [vm_compute; reflexivity|]. split; vm_compute; reflexivity.
 Qed.
